@@ -79,13 +79,20 @@ def run(tier, seed):
             for oi, (on, ox) in enumerate(OPTS[:4]):
                 if oi == 0 or (i + j + oi) % 4 == 0:
                     s.append(line("conv", "s_conv", "n%d" % j, 0, ox, 0))
+            if (i + j) % 4 == 1:
+                # one parse, the token tree exported twice: the second export must be as good as the first
+                s += [line("e_new", 0, "n%d" % j, docs.STD, 0), line("e_parse", 0), line("e_export", 0, 0), line("e_export", 0, 0), line("e_free", 0)]
         segs.append(s)
     res = run_harness(exe, segs, timeout=30)
     trace = []; problems = []
     for si, (seg, r) in enumerate(zip(segs, res)):
         if r["status"] != "ok": problems.append(("crash", seg, r))
+        nexp = {}
         for ev in r["events"]:
             if ev.get("e") != "conv": continue
+            if ev.get("fam") == "e_export":
+                nexp[ev["src"]] = nexp.get(ev["src"], 0) + 1
+                if nexp[ev["src"]] != 2: continue          # the first export equals the one-shot conversion; the second is the one judged here
             d = dl[si * per + int(ev["src"][1:])]
             p = P(); p.feed(project.lat1(ev["out"]).decode("utf-8", errors="replace"))
             x = ev["ext"]
@@ -96,7 +103,7 @@ def run(tier, seed):
     nconv = len([e for e in trace if e["e"] == "anchors"])
     chk.add("traces_validated_against_impl", nconv - len(rejected))
     chk.cov["evaluations"] = nconv; chk.cov["distinct_nontrivial"] = len(dl)
-    chk.cov["rule"] = "documents: TLC BFS over note histories of <= 3 events%.0s (calls to 3 labels x 3 kinds, inline footnotes, not-cited citations) x {plain, list, quote} x TOC x table; TLC BFS over 1-2 headings (5 title shapes x 4 styles x manual label x referenced); simulation mixing 5 events and 3 headings; each with and without 'Base Header Level: 2' metadata, rendered default and (rotating) with --random / --unique / --nolabels" % (3 if tier == "quick" else 4)
+    chk.cov["rule"] = "documents: TLC BFS over note histories of <= 3 events%.0s (calls to 3 labels x 3 kinds, inline footnotes, not-cited citations) x {plain, list, quote} x TOC x table; TLC BFS over 1-2 headings (5 title shapes x 4 styles x manual label x referenced); simulation mixing 5 events and 3 headings; each with and without 'Base Header Level: 2' metadata, rendered default and (rotating) with --random / --unique / --nolabels; every fourth document also parsed once and exported twice from the same engine" % (3 if tier == "quick" else 4)
     chk.sample(dict(src=dl[3]["src"][:300])); chk.sample(dict(src=gs.printed[-1]["src"][:400]))
     seen = {}
     for seg, idx in rejected:
